@@ -114,6 +114,7 @@ def generate(rng, tier, index):
     ops.append(driver.gen_op(rng, recipe, "predict", allow, p_each))
     if rng.random() < 0.5:
         ops.append(driver.gen_op(rng, recipe, "objective", allow, p_each))
+    core.sticky_bundles(rng, ops)
     return {"recipe": recipe, "ops": ops}
 
 
